@@ -12,6 +12,7 @@ P = "param.parameterized."
 
 def run(ctx):
     ctx.rule("R17.l", "Parameterized.__getstate__, interpreted abstractly, saves every ordinary attribute and the complete per-instance value store -- entries that are still the class default object included (that entry pins a constant to the instance; a copy without it follows later class-level sets)", floor=1)
+    ctx.rule("R17.m", "restoring a Parameter restores and nothing else: no __setstate__ of a Parameter class calls a method that recomputes slots from others (_update_state, compute_default, update, _ensure_value_is_in_objects, _validate): the copy must hold what was saved, e.g. an objects list the default was removed from", floor=2)
     ctx.rule("R17.a", "__setstate__ rebuilds every method-caller watcher as _m_caller(self, name), i.e. it assumes the object HOLDING the watcher owns the method; "
                       "every installer of such a caller must therefore register _m_caller(X, ...) on X itself", floor=1)
     ctx.rule("R17.e", "__setstate__ re-creates the Watcher tuples of a copy, so (i) it rebinds a bound-method callback by name only when that method's owner IS the watched instance "
@@ -266,6 +267,23 @@ def run(ctx):
     from checks.c19 import hash_state_agreement
     hash_state_agreement(ctx, "R17.k")
 
+    RECOMPUTE = {"_update_state", "compute_default", "update", "_ensure_value_is_in_objects", "_validate", "_validate_value", "_on_set"}
+    n_ss = 0
+    for q_ in ctx.hier.parameter_classes():
+        cobj = ctx.repo.classes.get(q_)
+        g = cobj.method("__setstate__") if cobj is not None else None
+        if g is None:
+            continue
+        n_ss += 1
+        calls_ = [c for c in ast.walk(g.node) if isinstance(c, ast.Call) and isinstance(c.func, ast.Attribute) and isinstance(c.func.value, ast.Name)
+                  and c.func.value.id == g.params[0] and c.func.attr in RECOMPUTE]
+        if calls_:
+            ctx.fail("R17.m", g, calls_[0], "%s.__setstate__ calls self.%s() after restoring the slots: the restored Parameter is recomputed instead of being what was saved (e.g. the default is "
+                                            "appended to an objects list it had been removed from), so the copy's Parameter differs from the original's" % (cobj.name, calls_[0].func.attr),
+                     key="%s::recomputes-after-restore" % g.qualname, input="p.param.x.objects.remove(default); copy.deepcopy(p).param.x.objects != p.param.x.objects")
+        else:
+            ctx.ok("R17.m", g, g.node, "%s.__setstate__ only restores" % cobj.name)
+    ctx.require(n_ss >= 2, "fewer than 2 Parameter __setstate__ methods found (%d)" % n_ss)
     from checks.shared import getstate_complete
     getstate_complete(ctx, "R17.l")
 
